@@ -1780,7 +1780,15 @@ class Normalizer:
             return isinstance(v, ast.Tuple) and 0 < len(v.elts) <= 4 and all(
                 (isinstance(x, (ast.Name, ast.Attribute, ast.Constant)) and not isinstance(x, ast.Starred)) or (rows and _simple_display(x, False))
                 for x in v.elts)
-        consts = {mapping.get(pn, pn): v for pn, v in binds if pn not in rebound and (isinstance(v, ast.Constant) or _simple_display(v))}
+        def _operator_fn(v, tgt_):
+            # a parameter bound to `operator.<f>` that the helper only calls: the calls are calls of that function
+            if not (isinstance(v, ast.Attribute) and isinstance(v.value, ast.Name) and v.value.id == "operator"):
+                return False
+            uses = [n for x in body for n in ast.walk(x) if isinstance(n, ast.Name) and n.id == tgt_]
+            called = [n for x in body for n in ast.walk(x) if isinstance(n, ast.Call) and isinstance(n.func, ast.Name) and n.func.id == tgt_]
+            return bool(uses) and len(uses) == len(called)
+        consts = {mapping.get(pn, pn): v for pn, v in binds if pn not in rebound and (isinstance(v, ast.Constant) or _simple_display(v)
+                                                                                        or _operator_fn(v, mapping.get(pn, pn)))}
         if consts:
             sub = _SubstName(consts)
             body = [sub.visit(s) for s in body]
